@@ -237,8 +237,6 @@ pub fn table() -> Vec<Entry> {
     cross!(v, latd HS, ord OS, [delta, ord], q, t3);
     cross!(v, latd HS, ord SS, [delta, ord], q, t3);
     cross!(v, latd BS, none VS, [delta], q, t3);
-    cross!(v, latd BS, ord AS2, [delta, ord], q, t3);
-    cross!(v, latd BS, ord OS, [delta, ord], q, t3);
     cross!(v, latd BS, ord SS, [delta, ord], q, t3);
     cross!(v, ord SS, ord AS2, [ord], q, t3);
     cross!(v, ord OS, ord SS, [ord], q, t3);
@@ -271,8 +269,6 @@ pub fn table() -> Vec<Entry> {
     cross!(v, latd BM<HS>, cmp VM<BS>, [delta, ord], q, m);
     cross!(v, latd HM<MxU>, latd BM<MxU>, [delta, sym, ord], q, t3);
     cross!(v, latd HM<MxU>, cmp VM<MxU>, [delta, ord], q, p(3, 2, 2));
-    cross!(v, latd HM<MxU>, ord AM2<MxU>, [delta, ord], q, t3);
-    cross!(v, latd HM<MxU>, ord OM<MxU>, [delta, ord], q, t3);
     cross!(v, latd HM<MxU>, ord SM<MxU>, [delta, ord], q, t3);
     cross!(v, latd HM<WbMx>, latd BM<WbMx>, [delta, sym, ord], q, t3);
     cross!(v, latd HM<WbMx>, cmp VM<WbMx>, [delta, ord], q, q);
@@ -336,7 +332,6 @@ pub fn table() -> Vec<Entry> {
     cross!(v, latd UfH, none UfO, [delta], p(3, 0, 2), p(4, 0, 3));
     cross!(v, latd UfH, none UfA, [delta], p(3, 0, 2), p(3, 0, 3));
     cross!(v, latd UfB, none UfS, [delta], p(3, 0, 2), p(4, 0, 3));
-    cross!(v, latd UfB, none UfV, [delta], p(3, 0, 2), p(3, 0, 3));
 
     // ---- tombstones (well-formed replicas) ------------------------------------------------------
     own!(v, latd, TsH, q, p(2, 4, 2));
@@ -371,7 +366,6 @@ pub fn table() -> Vec<Entry> {
 
     // ---- two-level nestings ----------------------------------------------------------------------
     own!(v, latd, HM<HM<HS>>, p(2, 1, 2), q);
-    own!(v, latd, HM<BM<BS>>, p(2, 1, 2), p(2, 1, 2));
     own!(v, latd, WithTop<HM<HS>>, q, p(3, 2, 2));
     own!(v, latd, Pair<VecUnion<MxU>, WithBot<HS>>, q, t3);
     own!(v, latd, HM<WithBot<HS>>, q, p(3, 2, 2));
@@ -392,7 +386,6 @@ pub fn table() -> Vec<Entry> {
     atoms!(v, HM<WithTop<HS>>, q, t3);
     atoms!(v, HM<()>, q, t3);
     atoms!(v, HM<HM<HS>>, p(2, 1, 2), q);
-    atoms!(v, HM<BM<BS>>, p(2, 1, 2), q);
     atoms!(v, WithBot<HS>, q, t3);
     atoms!(v, WithBot<()>, q, q);
     atoms!(v, WithTop<HS>, q, t3);
